@@ -81,7 +81,7 @@ def translate_spec(spec, dialect, thr_p, thr_w):
 
 
 def skeleton_stage(ctx: Ctx):
-    n = 60 if ctx.quick else 600
+    n = 84 if ctx.quick else 600
     items = []
     for i in range(n):
         boundary = (i % 6 == 5)
@@ -320,9 +320,9 @@ def report_x_failures(ctx, metas_live, bad, details, features_extra=None, stream
 
 
 def correspondence(ctx: Ctx):
-    n_duck, n_lite = (34, 14) if ctx.quick else (400, 150)
+    n_duck, n_lite = (46, 18) if ctx.quick else (400, 150)
     cases = [gen_case(ctx.rng, "duckdb") for _ in range(n_duck)] + [gen_case(ctx.rng, "sqlite") for _ in range(n_lite)]
-    n_exact = 6 if ctx.quick else 40
+    n_exact = 8 if ctx.quick else 40
     cases += [gen_exact_case(ctx.rng, "duckdb" if i % 3 else "sqlite") for i in range(n_exact)]
     metas, live, bad, errs, details = evaluate(ctx, "C02_x", cases)
     for case, impl, infos, err in metas:
